@@ -118,13 +118,25 @@ func (s *OnDiskAggTrigger) Fire(keyPath string, records []trigger.Record) {
 	}
 	tbk := io.NewTimeBucketKey(strings.Join(elements[:len(elements)-1], "/"))
 
+	// the written records need not be in time order: take the earliest and the latest
+	minIndex, maxIndex := records[0].Index(), records[0].Index()
+	for i := range records {
+		index := records[i].Index()
+		if index < minIndex {
+			minIndex = index
+		}
+		if index > maxIndex {
+			maxIndex = index
+		}
+	}
+
 	head := io.IndexToTime(
-		records[0].Index(),
+		minIndex,
 		tf.Duration,
 		int16(year))
 
 	tail := io.IndexToTime(
-		records[len(records)-1].Index(),
+		maxIndex,
 		tf.Duration,
 		int16(year))
 
